@@ -1148,7 +1148,7 @@ def emit_module(mod, out, contracts=None, aliases=None):
                 # positional parameter names $0,$1.. and $ret in clause text
                 for i, (t, pn) in enumerate(ps):
                     ctext = ctext.replace('$%d' % i, fe.lname(pn))
-                clauses = '\n' + ctext.replace('$ret', '__CPROVER_return_value')
+                clauses = '\n#ifdef LL2C_CPROVER\n' + ctext.replace('$ret', '__CPROVER_return_value').rstrip('\n') + '\n#endif'
                 aliases.append((alias, cname(name)))
         bodies.append(head + clauses + '\n' + text)
     for ci, (pat, alias, ctext) in enumerate(contracts):
